@@ -51,6 +51,12 @@ for b in blocks:
         "labels": labels,
         "demo": "demo_test.go.txt (rename to *_test.go at the place its package clause says, usually the repository root)",
     }
+    import subprocess
+    head = subprocess.run(["git", "-C", "/repo", "rev-parse", "--short", "HEAD"], capture_output=True, text=True).stdout.strip()
+    applies = subprocess.run(["git", "-C", "/repo", "apply", "--check", dst + "/patch.diff"], capture_output=True).returncode == 0
+    meta["applies_to"] = {"repo_head": head, "git_apply_check": applies, "note": "patches written against an earlier repaired tree were rebased when a later fix: commit touched the same lines (the original is kept as patch.orig.diff where that happened)"}
+    if os.path.exists(f"{src}/patch.orig.diff"):
+        shutil.copy(f"{src}/patch.orig.diff", dst)
     json.dump(meta, open(dst + "/meta.json", "w"), indent=1)
     if notes:
         open(dst + "/notes.md", "w").write(notes)
